@@ -46,7 +46,7 @@ def nontrivial(profile, counters):
 
 RULES = {
     'torn': "one case = one seeded plan (swarm config + op list with per-op decision tapes) executed in the cache "
-            "world, or one variant of a recorded plan in a systematic sweep (one seeded history in 40 [quick] / 10 "
+            "world, or one variant of a recorded plan in a systematic sweep (one seeded history in 240 [quick] / 80 "
             "[thorough] is re-executed once per seam step x {crash before, crash after, EIO, EACCES, torn write at 3 "
             "offsets}); non-trivial = at least one fault fired inside an op (crash, torn write, one-off errno, disk "
             "full, power loss, killed while paused), a corruption was applied to an existing pickle, or a parse ran "
@@ -243,7 +243,7 @@ def _worker(args):
                                       'digest': res['digest']})
             if len(out['violations']) >= 3:
                 break
-        elif profile == 'torn' and seed % (40 if tier == 'quick' else 10) == 7 and time.time() < deadline:
+        elif profile == 'torn' and seed % (240 if tier == 'quick' else 80) == 7 and time.time() < deadline:
             sweep_faults(plan, res, seed, out, deadline)
             if out['violations']:
                 break
